@@ -409,7 +409,7 @@ Definition decode_QS_pre_fix (b : bytes) : option QS := option_map fst (decode_Q
 (** Go element sizes (64-bit): bytes reserved by the three make() calls *)
 Definition sizeof_RA : N := 120.
 Definition sizeof_RW : N := 72.
-Definition sizeof_NIA : N := 328.
+Definition sizeof_NIA : N := 288.
 Definition qs_prealloc (caps : N * (N * N)) : N :=
   let '(c1, (c2, c3)) := caps in sizeof_RA * c1 + sizeof_RW * c2 + sizeof_NIA * c3.
 
